@@ -33,6 +33,24 @@ def eval_test(e, atom):
     return atom(norm(e), e)
 
 
+def canon_test(e):
+    """canonical spelling of a test: `not (a in b)` -> `a not in b`, `not (a == b)` -> `a != b`, `not (a is b)` -> `a is not b`, double negation removed
+    (copy; the operands are untouched)"""
+    import copy
+    NEG = {ast.In: ast.NotIn, ast.NotIn: ast.In, ast.Eq: ast.NotEq, ast.NotEq: ast.Eq, ast.Is: ast.IsNot, ast.IsNot: ast.Is}
+    def rec(x):
+        if isinstance(x, ast.UnaryOp) and isinstance(x.op, ast.Not):
+            inner = rec(x.operand)
+            if isinstance(inner, ast.UnaryOp) and isinstance(inner.op, ast.Not): return inner.operand
+            if isinstance(inner, ast.Compare) and len(inner.ops) == 1 and type(inner.ops[0]) in NEG:
+                y = copy.copy(inner); y.ops = [NEG[type(inner.ops[0])]()]; return y
+            y = copy.copy(x); y.operand = inner; return y
+        if isinstance(x, ast.BoolOp):
+            y = copy.copy(x); y.values = [rec(v) for v in x.values]; return y
+        return x
+    return rec(e)
+
+
 def resolve_flags(fn_node, test, depth=2, attrs=False):
     """copy of `test` in which local flag names are replaced by their (only) defining expression when that is a condition"""
     import copy
